@@ -196,7 +196,11 @@ def build_unit(ctx):
     for rel in (POOL_CPP, SER_POOL):
         for h in extract_local_helpers(ctx, rel):
             fns.append(h)
-            helpers.append(h.text)
+            ht, nn = re.subn(r'^([ \t]*)namespace[ \t]*\{', r'\1namespace verif_anon {', h.text, count=1, flags=re.M)
+            if nn:
+                h.rules.append(('anonymous namespace -> named namespace + using-directive (front end: "unique namespace not supported")', nn))
+                ht += '\n  using namespace verif_anon;\n'
+            helpers.append(ht)
     helpers = [re.sub(rf[1], rf[2], h) for h in helpers]       # the same desugaring applies inside factored-out helpers
     real = '\n\n'.join(helpers + parts)
     nrf = real.count('verif_it != ')
